@@ -149,6 +149,12 @@ impl IsoDateTime {
         utc_epoch_nanos(self.date, &self.time)
     }
 
+    /// `GetUTCEpochNanoseconds` as the difference and rounding operations use it: a plain number,
+    /// not an instant, so date-times in the first and the last day of the range have one too.
+    pub(crate) fn utc_epoch_nanoseconds(&self) -> i128 {
+        to_unchecked_epoch_nanoseconds(self.date, &self.time)
+    }
+
     /// Specification equivalent to 5.5.9 `AddDateTime`.
     pub(crate) fn add_date_duration(
         &self,
@@ -360,12 +366,6 @@ impl IsoDate {
             return Err(TemporalError::range().with_message("Not in a valid ISO day range."));
         }
         Ok(())
-    }
-
-    /// Returns this `IsoDate` in nanoseconds.
-    #[inline]
-    pub(crate) fn as_nanoseconds(&self) -> TemporalResult<EpochNanoseconds> {
-        utc_epoch_nanos(*self, &IsoTime::default())
     }
 
     /// Functionally the same as Date's abstract operation `MakeDay`
